@@ -38,6 +38,11 @@ chk("C07", "model_checking", "self-composition (twin devices) explored by explic
     "Trusted: refcodec/refcrypto and the freshness rule; one injection per history; depth 3 (quick) / 4 (thorough) transactions; nb and async (+Class C) front-ends, ABP and OTAA.",
     "DESIGN.md §3 C07")
 
+chk("C04", "model_checking", "exhaustive one-command-deep value sweep from base states + explicit-state BFS over histories, hang detection via owned fair RNG with draw budget",
+    "Layer A: in every region, ABP and OTAA, from five base states, one authentic downlink carrying one MAC command with its full field-value domain (or one JoinAccept with all 256 DLSettings x RxDelay x CFList variants) is delivered to the real device; every distinct resulting snapshot is followed by two uplinks with the first RNG draw enumerated 0..63. Layer B: BFS over histories with commands that shrink the mask, delete channels and change data rate, junk/oversized frames, set_datarate, joins with minimal CFLists and ADR back-off. Every call runs under catch_unwind; the scripted RNG is fair and panics after 4096 draws per call so that a selection loop that cannot exit is a detected hang; async calls must complete under a poll-driven executor.",
+    "Trusted: the mocks and the fair-RNG argument (every low-bit pattern recurs). nb runs the full Layer A domain, the async front-ends a stride of it (shared MAC code). Invalid application arguments are outside the alphabet.",
+    "DESIGN.md §3 C04")
+
 ALL = ["C%02d" % i for i in range(1, 21)]
 NA_REASON = "check not built yet in this round; see DESIGN.md for the planned bounded exploration"
 
